@@ -1,2 +1,3 @@
 SHIMS_ub += safeint_check
 VDRIVER := build/vd/vdriver
+FUZZERS += fuzz_nlread
